@@ -163,10 +163,26 @@ def rule_api(ctx) -> None:
                 ok = h.type is not None and all(nm.strip("()").split(".")[-1] == "ConfigError" for nm in (src(e) for e in (h.type.elts if isinstance(h.type, ast.Tuple) else [h.type])))
                 ctx.check(ok, "C14.API", f"{f.qual}/catches-only-typed-error", f.loc(h), f"{name} catches only ConfigError around the normaliser",
                           f"{name} catches `{names[0]}` around the normaliser: an internal error would be reported as a validation verdict (variants disagree)")
-                # messages derive from str(e)
+                # the messages a variant reports are the error's own, unaltered: taken from the error object (its collected list, or
+                # its text split at the separator it was joined with) - never after a strip() / other rewrite of the text, which
+                # changes messages about keys with surrounding blanks or an embedded newline
                 if h.name:
-                    uses = [y for st in h.body for y in ast.walk(st) if isinstance(y, ast.Call) and dotted(y.func) == "str" and y.args and src(y.args[0]) == h.name]
-                    ctx.check(bool(uses), "C14.API", f"{f.qual}/messages-from-error", f.loc(h), "messages are str(error) (unchanged)", "reported messages are not derived from the error text")
+                    scope = [y for st in h.body for y in ast.walk(st)]
+                    for y in list(scope):
+                        if isinstance(y, ast.Call):
+                            r = ctx.prog.callee(f, y)
+                            if r and r[1] in ctx.prog.funcs and r[1].startswith(V + ":") and any(isinstance(a, ast.Name) and a.id == h.name for a in y.args):
+                                scope += list(ast.walk(ctx.prog.funcs[r[1]].node))
+                    uses = [y for y in scope if isinstance(y, ast.Name) and y.id == h.name] 
+                    rewrites = [y for y in scope if isinstance(y, ast.Call) and isinstance(y.func, ast.Attribute) and y.func.attr in ("strip", "lstrip", "rstrip", "splitlines", "replace", "lower")
+                                and any(isinstance(z, ast.Call) and dotted(z.func) == "str" for z in ast.walk(y.func.value))]
+                    # a local holding str(e), then rewritten
+                    txt = {t.id for y in scope if isinstance(y, ast.Assign) and any(isinstance(z, ast.Call) and dotted(z.func) == "str" for z in ast.walk(y.value)) and
+                           any(isinstance(z, ast.Call) and isinstance(z.func, ast.Attribute) and z.func.attr in ("strip", "lstrip", "rstrip") for z in ast.walk(y.value)) for t in y.targets if isinstance(t, ast.Name)}
+                    ctx.check(bool(uses) and not rewrites and not txt, "C14.API", f"{f.qual}/messages-from-error", f.loc(h), "the messages are the error's own (list or text), not rewritten",
+                              ("reported messages are not derived from the error" if not uses else
+                               f"the variant rebuilds its messages from a rewritten error text (`{src((rewrites or [None])[0])[:50] if rewrites else 'str(e).strip()'}`): a key with a leading / trailing blank "
+                               "loses it and a key containing a newline turns one message into two - the variants disagree with the raised ConfigError"))
     sc = ctx.prog.modules.get("clematis.scripts.validate")
     if sc is None:
         raise AnalysisError("anchor-vanished: clematis.scripts.validate")
@@ -882,6 +898,105 @@ def rule_verdict_reads_normalised(ctx) -> None:
     ctx.floor("C14.RANGE", "of those, tests on a value read back from a section", n_reads, 1)
 
 
+def rule_sections_and_ranges(ctx) -> None:
+    """further structural conditions of "every accepted configuration satisfies the documented ranges and the engine can
+    execute turns under it": (a) a section that is normalised only when the user supplied it (`if raw_<sec>:`) rejects a
+    non-mapping value - otherwise the scalar skips the normalisation and reaches the engine verbatim; (b) a configuration
+    value the engine divides by / scales with is bounded by the validator so that the operation is defined (decay alpha >= 0,
+    update alpha finite); (c) a value copied from the user's quality section under a key with a documented range is tested
+    against that range where it is copied; (d) the result shares no object with the module-level DEFAULTS; (e) the CLI's
+    JSON report can carry whatever the validator accepted."""
+    impl = ctx.func(IMPL)
+    cfg = ctx.cfg(impl)
+    errs = [(n, c) for n in cfg.nodes for c in node_calls(n) if call_tail(c) == "_err" and len(c.args) >= 2]
+
+    def err_paths() -> Set[str]:
+        out = set()
+        for n, c in errs:
+            p = c.args[1]
+            if const_str(p):
+                out.add(const_str(p))
+            elif isinstance(p, ast.JoinedStr):
+                out.add("".join(str(v.value) if isinstance(v, ast.Constant) else "*" for v in p.values))
+        return out
+
+    paths = err_paths()
+    # (a)
+    n_sec = 0
+    for x in walk_no_defs(impl.node):
+        if isinstance(x, ast.If) and isinstance(x.test, ast.Name) and x.test.id.startswith("raw_"):
+            stores = [y for st in x.body for y in ast.walk(st) if isinstance(y, ast.Assign) and any(isinstance(t, ast.Subscript) and isinstance(t.value, ast.Name) and t.value.id == "merged" and const_str(t.slice) for t in y.targets)]
+            for y in stores:
+                sec = next(const_str(t.slice) for t in y.targets if isinstance(t, ast.Subscript) and const_str(t.slice))
+                n_sec += 1
+                rejected = any(const_str(c.args[1]) == sec and any("isinstance" in t and "dict" in t for t, pol in cfg.facts(n)) for n, c in errs)
+                ctx.check(rejected, "C14.CONTRACT", f"{impl.qual}/section-must-be-a-mapping:{sec}", impl.loc(x), f"a non-mapping `{sec}` is rejected",
+                          f"`{sec}` is normalised only under `if {x.test.id}:` and nothing rejects a non-mapping value: `{sec}: 5` yields an empty raw section, the block is skipped and the scalar stays in "
+                          "the accepted configuration - the first turn raises AttributeError on it")
+    ctx.floor("C14.CONTRACT", "sections normalised only when supplied", n_sec, 1)
+    # (b)
+    t1 = ctx.func("clematis.engine.stages.t1:_compute_decay")
+    divs = [x for x in walk_no_defs(t1.node) if isinstance(x, ast.BinOp) and isinstance(x.op, ast.Div)]
+    ctx.floor("C14.CONTRACT", "divisions in the T1 decay", len(divs), 1)
+    ctx.check("t1.decay.alpha" in paths, "C14.CONTRACT", f"{impl.qual}/range:t1.decay.alpha", impl.loc(), "t1.decay.alpha is range-checked (the decay divides by 1 + alpha * d^2)",
+              "t1.decay.alpha is coerced but never range-checked: attn_quad divides by 1 + alpha * d^2, so alpha = -1 is accepted and the first relaxation at distance 1 raises ZeroDivisionError")
+    fin = False
+    for n, c in errs:
+        if const_str(c.args[1]) == "graph.update.alpha":
+            for t, pol in cfg.facts(n):
+                if "inf" in t or "isfinite" in t:
+                    fin = True
+    ctx.check(fin, "C14.CONTRACT", f"{impl.qual}/range:graph.update.alpha-finite", impl.loc(), "graph.update.alpha is bounded above (finite)",
+              "graph.update.alpha is only checked to be > 0: inf is accepted, and the proportional update alpha * (1 - |w|) is inf * 0 = NaN once an edge reaches |w| = 1 - the weight stays NaN, "
+              "outside every clamp bound")
+    # the recency window
+    fr = ctx.func("clematis.memory.index:InMemoryIndex._filter_recent")
+    tds = [x for x in walk_no_defs(fr.node) if isinstance(x, ast.Call) and call_tail(x) == "timedelta"]
+    ctx.floor("C14.CONTRACT", "timedelta constructions in the recency window", len(tds), 1)
+    for x in tds:
+        guarded = any(isinstance(st, ast.Try) and part == "body" and any(h.type is None or "OverflowError" in src(h.type) or "Exception" in src(h.type) for h in st.handlers) for st, part in enclosing(ctx.prog, fr, x))
+        bounded = "t2.exact_recent_days" in paths and any(const_str(c.args[1]) == "t2.exact_recent_days" and any(("<=" in t or ">" in t) and pol for t, pol in cfg.facts(n)) for n, c in errs)
+        ctx.check(guarded, "C14.CONTRACT", ctx.okey(f"{fr.qual}/window-length-cannot-overflow"), fr.loc(x), "an over-long window is handled (OverflowError caught)",
+                  "`now - timedelta(days=exact_recent_days)` is unguarded and the validator only requires exact_recent_days >= 0: 1000000 is accepted and the exact tier raises OverflowError as soon as "
+                  "the index holds an episode")
+    # (c)
+    RANGED = {"alpha_semantic": "t2.quality.fusion.alpha_semantic", "k1": "t2.quality.lexical.bm25.k1", "b": "t2.quality.lexical.bm25.b"}
+    n_q = 0
+    for n in cfg.nodes:
+        a = n.ast
+        if n.kind == "stmt" and isinstance(a, ast.Assign) and isinstance(a.value, ast.Call) and call_tail(a.value) in ("_coerce_float",) and a.value.args \
+                and isinstance(a.value.args[0], ast.Call) and call_tail(a.value.args[0]) == "get" and isinstance(a.value.args[0].func.value, ast.Name) and a.value.args[0].func.value.id.startswith("raw_q"):
+            k = const_str(a.value.args[0].args[0]) if a.value.args[0].args else None
+            if k not in RANGED:
+                continue
+            n_q += 1
+            after = cfg.reach([n], include_start=False)
+            tested = any(const_str(c.args[1]) == RANGED[k] and m in after for m, c in errs)
+            ctx.check(tested, "C14.RANGE", ctx.okey(f"{impl.qual}/user-value-range-checked:{RANGED[k]}"), impl.loc(a), f"the user's {RANGED[k]} is tested against its documented range where it is copied",
+                      f"`{src(a)[:70]}` copies the user's value with a bare coercion; the range check of {RANGED[k]} runs earlier against a dict that only holds the defaults - an out-of-range value "
+                      "is accepted and appears in the normalised configuration")
+    ctx.floor("C14.RANGE", "user quality values with a documented range", n_q, 3)
+    # (d)
+    dm = ctx.func(V + ":_deep_merge")
+    st = [x for x in walk_no_defs(dm.node) if isinstance(x, ast.Assign) and any(isinstance(t, ast.Subscript) for t in x.targets)]
+    ctx.floor("C14.PURE", "stores of the defaults merge", len(st), 2)
+    for x in st:
+        v = x.value
+        fresh = isinstance(v, ast.Call) and (call_tail(v) in ("deepcopy", "_deep_merge") or dotted(v.func) in ("copy.deepcopy",))
+        ctx.check(fresh, "C14.PURE", ctx.okey(f"{dm.qual}/defaults-are-copied"), dm.loc(x), f"`{src(v)[:40]}` is a fresh object",
+                  f"`{src(x)[:50]}` inserts the default value itself: the returned configuration shares lists / dicts with the module-level DEFAULTS, and a caller editing its own normalised config "
+                  "changes the verdict of every later validate_config call")
+    # (e)
+    sc = ctx.prog.module("clematis.scripts.validate")
+    for f in [f for f in sc.funcs.values() if f.name == "main"]:
+        dumps = [x for x in walk_no_defs(f.node) if isinstance(x, ast.Call) and dotted(x.func) == "json.dumps" and any(isinstance(y, ast.Name) and "normal" in y.id for y in ast.walk(x))]
+        ctx.floor("C14.API", "JSON report of the CLI", len(dumps), 1)
+        for x in dumps:
+            ctx.check(kwarg(x, "default") is not None, "C14.API", f"{f.qual}/json-report-carries-accepted-values", f.loc(x), "the JSON report has a fallback encoder for non-JSON scalars",
+                      "`validate --json` serialises the accepted configuration without a fallback encoder: a YAML date in a pass-through position (accepted by the API and the plain CLI) dies with "
+                      "an uncaught TypeError and exit 1 - another exception, and the verdict differs from the other variants")
+
+
 def _validator_minimum(ctx, leaf: str) -> Tuple[Optional[int], int]:
     """smallest value of `<...>.<leaf>` the validator accepts, read from its `if x[leaf] < N: _err(...)` tests: (min over sites, #sites)"""
     impl = ctx.func(IMPL)
@@ -1007,6 +1122,7 @@ def run(ctx) -> None:
     rule_det(ctx)
     rule_range(ctx)
     rule_verdict_reads_normalised(ctx)
+    rule_sections_and_ranges(ctx)
     rule_total(ctx)
     rule_contract(ctx)
     rule_contract_nested(ctx)
